@@ -80,22 +80,35 @@ func (b *verifBandtss) CreateDirectSigningRequest(
 	return bandtsstypes.SigningID(b.NextID), nil
 }
 
+// rolling seed neighbour: a fixed 32-byte seed (its value is irrelevant: the DRBG output is arbitrary)
+type verifRollingSeed struct{}
+
+func (verifRollingSeed) GetRollingSeed(ctx sdk.Context) []byte {
+	b := make([]byte, 32)
+	for i := range b {
+		b[i] = byte(i + 1)
+	}
+	return b
+}
+
 type verifEnv struct {
 	ctx     sdk.Context
 	k       Keeper
 	key     storetypes.StoreKey
 	bandtss *verifBandtss
+	staking *venv.Staking
 }
 
 func verifSetup() verifEnv {
 	key := storetypes.NewKVStoreKey(types.StoreKey)
 	ctx := venv.NewContext(key)
 	bt := &verifBandtss{key: key}
+	staking := venv.NewStaking()
 	k := NewKeeper(
 		venv.Codec(), key, venv.TempDir(), "fee_collector",
-		venv.Auth{}, venv.NewBank(), venv.NewStaking(), nil, venv.Authz{},
-		nil, nil, nil, bt, capabilitykeeper.ScopedKeeper{}, venv.OwasmVM(), venv.Addr(9).String(),
+		venv.Auth{}, venv.NewBank(), staking, nil, venv.Authz{},
+		nil, nil, verifRollingSeed{}, bt, capabilitykeeper.ScopedKeeper{}, venv.OwasmVM(), venv.Addr(9).String(),
 	)
 	verifExecPlans, verifExecCalls = nil, 0
-	return verifEnv{ctx: ctx, k: k, key: key, bandtss: bt}
+	return verifEnv{ctx: ctx, k: k, key: key, bandtss: bt, staking: staking}
 }
